@@ -42,6 +42,18 @@ def cmp_canon(op: ast.cmpop, l: str, r: str) -> tuple[str, bool] | None:
     return None
 
 
+def _type_test_of_local(atom: str) -> bool:
+    """`isinstance(<local name>, <types>)`: the class of the object a local names does not change under calls or suspensions (rebinding the local kills the atom)."""
+    return re.fullmatch(r'isinstance\((\w+), [^()]*(\([^()]*\))?\)', atom) is not None
+
+
+def _unbool(e: ast.AST) -> ast.AST:
+    """`bool(X)` has the truth value of X."""
+    while isinstance(e, ast.Call) and isinstance(e.func, ast.Name) and e.func.id == 'bool' and len(e.args) == 1 and not e.keywords:
+        e = e.args[0]
+    return e
+
+
 def truth_of(v: str | None) -> bool | None:
     if v in TRUTHY:
         return True
@@ -91,7 +103,7 @@ class Facts:
         """Forget non-local atoms that executing *st* may change."""
         if isinstance(st, (ast.FunctionDef, ast.AsyncFunctionDef, ast.ClassDef)):
             return  # a definition executes none of its body
-        nonlocal_atoms = [a for a in env if ('(' in a or '.' in a) and not (a in self.sticky_true and env[a] in TRUTHY) and not self._init_only(a)]
+        nonlocal_atoms = [a for a in env if ('(' in a or '.' in a) and not (a in self.sticky_true and env[a] in TRUTHY) and not self._init_only(a) and not _type_test_of_local(a)]
         if self.taskvars:
             tv = [a for a in nonlocal_atoms if a.endswith('.get()') and a[:-6] in self.taskvars]
             if tv:
@@ -137,6 +149,7 @@ class Facts:
         return None
 
     def eval(self, e: ast.AST, env: dict) -> bool | None:
+        e = _unbool(e)
         c = const_value(e)
         if c is not None:
             return truth_of(c)
@@ -184,6 +197,7 @@ class Facts:
 
     def assume(self, e: ast.AST, truth: bool, env: dict) -> dict | None:
         """Refine env with ``bool(e) == truth``; None if infeasible."""
+        e = _unbool(e)
         cur = self.eval(e, env)
         if cur is not None and cur != truth:
             return None
@@ -367,7 +381,7 @@ class Facts:
         for a in list(env):
             if a.endswith('.get()') and a[:-6] in self.taskvars:
                 continue
-            if self._init_only(a):
+            if self._init_only(a) or _type_test_of_local(a):
                 continue
             if ('(' in a or '.' in a) and not (a in self.sticky_true and env[a] in TRUTHY):
                 del env[a]
@@ -381,6 +395,7 @@ class Facts:
 # ------------------------------------------------------------------------------------------------ propositional entailment
 def _props(e: ast.AST, out: set) -> None:
     """Base propositions of a test: ('t', text) = text is truthy, ('n', text) = text is None."""
+    e = _unbool(e)
     if isinstance(e, ast.Constant):
         return
     if isinstance(e, ast.UnaryOp) and isinstance(e.op, ast.Not):
@@ -403,6 +418,7 @@ def _props(e: ast.AST, out: set) -> None:
 
 
 def _holds(e: ast.AST, val: dict) -> bool:
+    e = _unbool(e)
     if isinstance(e, ast.Constant):
         return bool(e.value)
     if isinstance(e, ast.UnaryOp) and isinstance(e.op, ast.Not):
